@@ -96,7 +96,10 @@ STACKS_FLAGS_QUICK = {"-MINIMALDATA": [(), ("0100",)], None: [()]}
 STACKS_FLAGS_THOROUGH = {None: [(), ("0100",), ("01", "01")]}
 
 DEBUG_AREAS = ["sighash", "signing", "segwit", "taproot"]
-DELIVERIES = ["stdin-line/stdout-pipe", "stdin-line/stdout-pty", "argv/stdin-pty/stdout-pipe"]
+DELIVERIES = ["stdin-line/stdout-pipe", "stdin-line/stdout-pty", "argv/stdin-pty/stdout-pipe",
+              # the same line with other terminators: CR LF, none at all (end of input), LF followed by further lines
+              "stdin-line-crlf/stdout-pipe", "stdin-line-noeol/stdout-pipe", "stdin-line-more-lines/stdout-pipe"]
+LINE_END = {"stdin-line": "\n", "stdin-line-crlf": "\r\n", "stdin-line-noeol": "", "stdin-line-more-lines": "\nOP_RETURN\n\n"}
 
 
 def option_variants():
@@ -135,7 +138,7 @@ def run_batch(bdir, cwd, delivery, xargs, xenv, pre, script_hex, stack):
     sargs = ["0x" + s for s in stack]
     sc = ("0x" + script_hex) if script_hex is not None else None
     if delivery.startswith("stdin-line"):
-        line = ((sc or "") + "\n").encode()
+        line = ((sc or "") + LINE_END[delivery.split("/")[0]]).encode()
         return pu.run_proc([exe] + xargs + pre + sargs, data=line, stdin="pipe",
                            stdout="pty" if delivery.endswith("stdout-pty") else "pipe", env=xenv, cwd=cwd)
     return pu.run_proc([exe] + xargs + pre + ([sc] if sc is not None else []) + sargs, stdin="pty", stdout="pipe",
